@@ -128,6 +128,23 @@ CHECKS = {
              "originator that keeps setting the flag).",
         note="Enumeration is over drop subsets of the profiled control datagrams; duplication, reordering, crashes of relays, "
              "stalls and clock jumps are sampled. Crashed nodes are not inspected."),
+    "C11": dict(
+        level="exploration", design="DESIGN.md 4/C11",
+        technique=TECH + ": every shipped overlay class (default settings) in scripted multi-node runs on SimNet, unload at every "
+                         "script step / seeded instants, late-datagram injection, two virtual hours; per-TaskManager future tracking; "
+                         "seeded TaskManager register/replace/cancel interleavings",
+        text="Each of the 9 shipped overlay classes and a multiplexed node runs its real protocol script with default settings; one "
+             "node's overlay is unloaded at every step index (and at seeded instants inside steps, under loss/duplication), the "
+             "user's in-flight operations are abandoned, then genuine late datagrams of every captured message id plus all 256 ids "
+             "with garbage are delivered and 7200 virtual seconds pass. After unload() returned: no datagram with the overlay's "
+             "prefix leaves the node, no lazy-wrapped handler / decode-map entry / cell handler / cache time-out runs, every task "
+             "ever registered with the overlay, its request cache and its exit sockets is done, nothing of it (incl. the crypto "
+             "endpoint) is listed on the endpoint, register_task creates nothing, every socket it opened is closed. A second "
+             "family drives a real TaskManager with seeded register/replace/cancel sequences: an active name is refused, a "
+             "replacement never starts before the replaced task finished.",
+        note="'Unloading completed' = the awaitable of unload() is done. Operations the user still runs on the overlay while "
+             "unloading it are cancelled by the harness (not attributed to the overlay). ipv8_service.IPv8 itself is not in the "
+             "loop (overlays are multiplexed by the harness the same way)."),
     "C12": dict(
         level="exploration", design="DESIGN.md 4/C12",
         technique=TECH + ": operation histories (incl. snapshot/restart and LRU-overflow configurations) on the real Network "
@@ -168,6 +185,21 @@ CHECKS = {
              "compared with a dict model on every query for all key subsets of length <= 3 and random longer ones.",
         note="Direct histories only (the table inside a simulated DHT network is exercised by C15's scenario). closest_nodes "
              "calls are rate-limited per case by a deterministic cost estimate."),
+    "C15": dict(
+        level="exploration", design="DESIGN.md 4/C15",
+        technique=TECH + ": 6..12 real DHTDiscoveryCommunity nodes on SimNet under virtual time (real 300 s token rotation and "
+                         "3600 s value maintenance, clock jumps), adversary members injecting crafted store/find traffic, lock-step "
+                         "per-node token/storage model built from observed wire traffic; direct Storage histories",
+        text="Honest clients store and look up signed/unsigned values in several versions while two adversary identities send "
+             "store / store-peer requests with fresh, expired, foreign-node, foreign-address, foreign-key, sniffed and garbage "
+             "tokens from chosen source addresses, oversized / too many / forged / foreign-signed / rolled-back values, replays, "
+             "and crafted find-responses; token rotations, maintenance runs and clock jumps are interleaved under loss, "
+             "duplication and reordering. A per-node model (tokens read off find-responses leaving the node; rotation count) "
+             "decides for every request whether Storage / store may change; stored versions never decrease; find_values returns "
+             "signed data only if the harness' own verification succeeds and the highest version offered; nothing expired "
+             "survives value_maintenance; store-peer only under the requester's own mid.",
+        note="Ed25519 of ipv8.keyvault is trusted (harness verifies with it). A responder's unsigned values being cached by the "
+             "client without a token is observed (probe) but not flagged: the statement is about store requests."),
     "C16": dict(
         level="exploration", design="DESIGN.md 4/C16",
         technique=TECH + ": arrival schedule of tokens is the searched object (all permutations for <=6 tokens over all 84 rooted "
@@ -180,6 +212,20 @@ CHECKS = {
              "tier, sampled for larger trees.",
         note="Validity of a token is known by construction (trusts Ed25519 and SHA3-256). Delivery through IdentityCommunity "
              "messages is exercised by C17/C01 scenarios, not here."),
+    "C17": dict(
+        level="exploration", design="DESIGN.md 4/C17",
+        technique=TECH + ": authority / subjects / outsider as real IdentityCommunity nodes with file-backed databases on SimNet "
+                         "under virtual time (299 s vs 301 s registrations, restarts), dishonest senders and injected replays from an "
+                         "explicit op list, consent model evaluated from the op history and the wire only",
+        text="Seeded and motif-built operation lists (registrations with/without fixed metadata, attestation requests, doctored "
+             "disclosures with wrong key / name / metadata / broken chain, replays just below and above 300 s, duplicate "
+             "disclosures, third-party and forged attestations, missing-token requests from unpermitted peers and beyond the "
+             "permitted index, restarts of the authority on its database file) run on four real nodes under loss / duplication / "
+             "delay. Every AttestPayload leaving a node must match a registration (hash, subject key, name, fixed metadata, "
+             "age < 300 s) over a chain the harness re-verifies, at most once per metadata; every new Attestations row must be "
+             "signed by its sender; tokens leave only towards permitted peers and below the opened index.",
+        note="The oracle never reads should_sign / known_attestation_hashes / permissions. One genuine defect is listed in "
+             "known_findings.json (needs a schema migration to repair)."),
     "C19": dict(
         level="fault_enumeration", design="DESIGN.md 4/C19",
         technique=TECH + ": process death enumerated at every SQL statement / commit / close / insert boundary of scripted and "
